@@ -20,3 +20,4 @@ open Neutrino.BM
 #print axioms Neutrino.BM.C02_trans_findPreviousHeaderCheckpoint
 #print axioms Neutrino.BM.C02_trans_replace_guard
 #print axioms Neutrino.BM.C02_trans_BlockHeadersSynced
+#print axioms C02_displaced_do_not_resolve
